@@ -1,0 +1,32 @@
+//go:build verif
+
+package object
+
+// C08: the converters for []byte and []float64 (fields, parameters, results, elements of [][]byte, map values).
+// "A script value ... either arrives as a Go value that faithfully represents it or is rejected cleanly": whatever the
+// converter accepts arrives unchanged. A byte_slice / float_slice hands over its own array; a string its bytes; and IF
+// a list is accepted, every element is an integer 0..255 (or a byte) and arrives as exactly that value - an
+// implementation that reduces 300 to 44 accepts a value it cannot represent (seed C08h: `case *List` filled through
+// AsByte, which wraps). Other script types are rejected with an error and a nil value.
+
+//@ spec faithfulByte(o, b) = (typeof(o) == *Int && o.(*Int).value == int64(b)) || (typeof(o) == *Byte && o.(*Byte).value == b)
+//@ spec faithfulFloat(o, f) = (typeof(o) == *Float && (o.(*Float).value == f || isnan(o.(*Float).value))) || (typeof(o) == *Int && -9007199254740992 <= o.(*Int).value && o.(*Int).value <= 9007199254740992 && float64(o.(*Int).value) == f)
+
+//@ func (*ByteSliceConverter).To
+//@ props C08
+//@ safety
+//@ requires obj != nil && ref(obj) != nil
+//@ ensures[C08.bytes.to.kinds] result1 == nil ==> oneof(typeof(obj), *ByteSlice, *Buffer, *String, *List) && typeof(result0) == []byte
+//@ ensures[C08.bytes.to.same] result1 == nil && typeof(obj) == *ByteSlice ==> result0.([]byte) == obj.(*ByteSlice).value
+//@ ensures[C08.bytes.to.string] result1 == nil && typeof(obj) == *String ==> len(result0.([]byte)) == len(obj.(*String).value)
+//@ ensures[C08.bytes.to.list] result1 == nil && typeof(obj) == *List ==> len(result0.([]byte)) == len(obj.(*List).items) && forall(i, 0, len(obj.(*List).items), faithfulByte(obj.(*List).items[i], result0.([]byte)[i]))
+//@ ensures[C08.bytes.to.reject] result1 != nil ==> result0 == nil
+
+//@ func (*FloatSliceConverter).To
+//@ props C08
+//@ safety
+//@ requires obj != nil && ref(obj) != nil
+//@ ensures[C08.floats.to.kinds] result1 == nil ==> oneof(typeof(obj), *FloatSlice, *List) && typeof(result0) == []float64
+//@ ensures[C08.floats.to.same] result1 == nil && typeof(obj) == *FloatSlice ==> result0.([]float64) == obj.(*FloatSlice).value
+//@ ensures[C08.floats.to.list] result1 == nil && typeof(obj) == *List ==> len(result0.([]float64)) == len(obj.(*List).items) && forall(i, 0, len(obj.(*List).items), faithfulFloat(obj.(*List).items[i], result0.([]float64)[i]))
+//@ ensures[C08.floats.to.reject] result1 != nil ==> result0 == nil
